@@ -9,6 +9,8 @@ use uuid::Uuid;
 #[derive(Default)]
 pub struct Ids {
     pub map: HashMap<Uuid, u64>,
+    /// reverse lookup (small integer -> uuid), used by `parse_msg`
+    pub rev: HashMap<u64, Uuid>,
     pub next: u64,
     pub last_new: Option<u64>,
 }
@@ -20,8 +22,35 @@ impl Ids {
         }
         self.next += 1;
         self.map.insert(u, self.next);
+        self.rev.insert(self.next, u);
         self.last_new = Some(self.next);
         self.next
+    }
+
+    /// the uuid a small integer stands for, if it has been seen or bound
+    pub fn uuid_of(&self, id: u64) -> Option<Uuid> {
+        self.rev.get(&id).cloned()
+    }
+
+    /// bind `u` to exactly `id` (replay: the recorded id of a cookie the implementation just chose,
+    /// or of a client-chosen uuid seen for the first time); later automatic ids stay above it
+    pub fn bind(&mut self, u: Uuid, id: u64) {
+        self.map.insert(u, id);
+        self.rev.insert(id, u);
+        if self.next < id {
+            self.next = id;
+        }
+    }
+
+    /// inverse of `id` for parsing: an id that is not known yet is a client-chosen (or bogus) uuid
+    /// seen for the first time; it gets a deterministic uuid bound to exactly that id
+    pub fn resolve(&mut self, id: u64) -> Uuid {
+        if let Some(u) = self.rev.get(&id) {
+            return *u;
+        }
+        let u = Uuid::from_u128(0x5eed_0000_0000u128 + id as u128);
+        self.bind(u, id);
+        u
     }
 }
 
@@ -340,5 +369,558 @@ pub fn fmt_msg(m: &Message, ids: &mut Ids) -> String {
         ),
         M::Shutdown(_) => "Shutdown".into(),
         M::Connect(_) | M::ConnectReply(_) | M::Connect2(_) | M::ConnectReply2(_) => "Other".into(),
+    }
+}
+
+// ---------------------------------------------------------------------------------------------
+// parsing: the inverse of `fmt_msg` (used by `broker replay` to re-execute a stored history)
+
+/// payload number -> payload: n < 256 is the u8 it encodes, anything else (999) a payload that is
+/// not a u8
+pub fn payload_of(n: u64) -> SerializedValue {
+    if n < 256 {
+        SerializedValue::serialize(n as u8).unwrap()
+    } else {
+        SerializedValue::serialize("not-a-u8").unwrap()
+    }
+}
+
+struct Toks<'a> {
+    it: std::str::Split<'a, char>,
+    text: &'a str,
+}
+
+impl<'a> Toks<'a> {
+    fn word(&mut self) -> Result<&'a str, String> {
+        loop {
+            match self.it.next() {
+                Some("") => continue,
+                Some(w) => return Ok(w),
+                None => return Err(format!("message text ends early: {:?}", self.text)),
+            }
+        }
+    }
+    fn num<T: std::str::FromStr>(&mut self) -> Result<T, String> {
+        let w = self.word()?;
+        w.parse::<T>().map_err(|_| format!("not a number {:?} in {:?}", w, self.text))
+    }
+    fn opt_num<T: std::str::FromStr>(&mut self) -> Result<Option<T>, String> {
+        let w = self.word()?;
+        if w == "-" {
+            return Ok(None);
+        }
+        w.parse::<T>().map(Some).map_err(|_| format!("not a number or '-' {:?} in {:?}", w, self.text))
+    }
+    fn uuid(&mut self, ids: &mut Ids) -> Result<Uuid, String> {
+        Ok(ids.resolve(self.num::<u64>()?))
+    }
+    fn opt_uuid(&mut self, ids: &mut Ids) -> Result<Option<Uuid>, String> {
+        Ok(self.opt_num::<u64>()?.map(|i| ids.resolve(i)))
+    }
+    fn payload(&mut self) -> Result<SerializedValue, String> {
+        Ok(payload_of(self.num::<u64>()?))
+    }
+    fn endc(&mut self) -> Result<ChannelEndWithCapacity, String> {
+        match self.word()? {
+            "S" => Ok(ChannelEndWithCapacity::Sender),
+            "R" => Ok(ChannelEndWithCapacity::Receiver(self.num()?)),
+            w => Err(format!("channel end with capacity {:?} in {:?}", w, self.text)),
+        }
+    }
+    fn end(&mut self) -> Result<ChannelEnd, String> {
+        match self.word()? {
+            "S" => Ok(ChannelEnd::Sender),
+            "R" => Ok(ChannelEnd::Receiver),
+            w => Err(format!("channel end {:?} in {:?}", w, self.text)),
+        }
+    }
+    fn filter(&mut self, ids: &mut Ids) -> Result<BusListenerFilter, String> {
+        match self.word()? {
+            "O" => Ok(BusListenerFilter::Object(self.opt_uuid(ids)?.map(ObjectUuid))),
+            "S" => {
+                let object = self.opt_uuid(ids)?.map(ObjectUuid);
+                let service = self.opt_uuid(ids)?.map(ServiceUuid);
+                Ok(BusListenerFilter::Service(BusListenerServiceFilter { object, service }))
+            }
+            w => Err(format!("filter {:?} in {:?}", w, self.text)),
+        }
+    }
+    /// `I ver tid suball` -> the serialized ServiceInfo; `BAD` -> a payload that is not a ServiceInfo
+    fn info(&mut self, ids: &mut Ids) -> Result<SerializedValue, String> {
+        match self.word()? {
+            "BAD" => Ok(SerializedValue::serialize(0u8).unwrap()),
+            "I" => {
+                let mut info = ServiceInfo::new(self.num()?);
+                if let Some(t) = self.opt_uuid(ids)? {
+                    info = info.set_type_id(TypeId(t));
+                }
+                match self.word()? {
+                    "-" => {}
+                    "0" => info = info.set_subscribe_all(false),
+                    "1" => info = info.set_subscribe_all(true),
+                    w => return Err(format!("subscribe-all flag {:?} in {:?}", w, self.text)),
+                }
+                Ok(SerializedValue::serialize(info).unwrap())
+            }
+            w => Err(format!("service info {:?} in {:?}", w, self.text)),
+        }
+    }
+    fn object_id(&mut self, ids: &mut Ids) -> Result<ObjectId, String> {
+        let u = self.uuid(ids)?;
+        let c = self.uuid(ids)?;
+        Ok(ObjectId::new(ObjectUuid(u), ObjectCookie(c)))
+    }
+    fn service_id(&mut self, ids: &mut Ids) -> Result<ServiceId, String> {
+        let o = self.object_id(ids)?;
+        let u = self.uuid(ids)?;
+        let c = self.uuid(ids)?;
+        Ok(ServiceId::new(o, ServiceUuid(u), ServiceCookie(c)))
+    }
+    fn finish(&mut self) -> Result<(), String> {
+        loop {
+            match self.it.next() {
+                Some("") => continue,
+                Some(w) => return Err(format!("trailing token {:?} in {:?}", w, self.text)),
+                None => return Ok(()),
+            }
+        }
+    }
+}
+
+/// Inverse of `fmt_msg`.  Small integers are mapped back to the uuids they stand for (`Ids::rev`);
+/// an unknown id gets a deterministic uuid bound to exactly that id.  What the text does not
+/// record is filled in as the generator does: the value of RegisterIntrospection (a u8), the type
+/// id of QueryIntrospection (uuid 1), the result of QueryIntrospectionReply (Unavailable).
+pub fn parse_msg(text: &str, ids: &mut Ids) -> Result<Message, String> {
+    let mut t = Toks { it: text.split(' '), text };
+    let kind = t.word()?;
+    let bad = |what: &str, w: &str| -> String { format!("{} {:?} in {:?}", what, w, text) };
+    let m: Message = match kind {
+        "CreateObject" => CreateObject { serial: t.num()?, uuid: ObjectUuid(t.uuid(ids)?) }.into(),
+        "CreateObjectReply" => {
+            let serial = t.num()?;
+            let result = match t.word()? {
+                "Ok" => CreateObjectResult::Ok(ObjectCookie(t.uuid(ids)?)),
+                "Dup" => CreateObjectResult::DuplicateObject,
+                w => return Err(bad("result", w)),
+            };
+            CreateObjectReply { serial, result }.into()
+        }
+        "DestroyObject" => DestroyObject { serial: t.num()?, cookie: ObjectCookie(t.uuid(ids)?) }.into(),
+        "DestroyObjectReply" => {
+            let serial = t.num()?;
+            let result = match t.word()? {
+                "Ok" => DestroyObjectResult::Ok,
+                "Invalid" => DestroyObjectResult::InvalidObject,
+                "Foreign" => DestroyObjectResult::ForeignObject,
+                w => return Err(bad("result", w)),
+            };
+            DestroyObjectReply { serial, result }.into()
+        }
+        "CreateService" => CreateService {
+            serial: t.num()?,
+            object_cookie: ObjectCookie(t.uuid(ids)?),
+            uuid: ServiceUuid(t.uuid(ids)?),
+            version: t.num()?,
+        }
+        .into(),
+        "CreateService2" => CreateService2 {
+            serial: t.num()?,
+            object_cookie: ObjectCookie(t.uuid(ids)?),
+            uuid: ServiceUuid(t.uuid(ids)?),
+            value: t.info(ids)?,
+        }
+        .into(),
+        "CreateServiceReply" => {
+            let serial = t.num()?;
+            let result = match t.word()? {
+                "Ok" => CreateServiceResult::Ok(ServiceCookie(t.uuid(ids)?)),
+                "Dup" => CreateServiceResult::DuplicateService,
+                "InvalidObject" => CreateServiceResult::InvalidObject,
+                "Foreign" => CreateServiceResult::ForeignObject,
+                w => return Err(bad("result", w)),
+            };
+            CreateServiceReply { serial, result }.into()
+        }
+        "DestroyService" => DestroyService { serial: t.num()?, cookie: ServiceCookie(t.uuid(ids)?) }.into(),
+        "DestroyServiceReply" => {
+            let serial = t.num()?;
+            let result = match t.word()? {
+                "Ok" => DestroyServiceResult::Ok,
+                "Invalid" => DestroyServiceResult::InvalidService,
+                "Foreign" => DestroyServiceResult::ForeignObject,
+                w => return Err(bad("result", w)),
+            };
+            DestroyServiceReply { serial, result }.into()
+        }
+        "CallFunction" => CallFunction {
+            serial: t.num()?,
+            service_cookie: ServiceCookie(t.uuid(ids)?),
+            function: t.num()?,
+            value: t.payload()?,
+        }
+        .into(),
+        "CallFunction2" => CallFunction2 {
+            serial: t.num()?,
+            service_cookie: ServiceCookie(t.uuid(ids)?),
+            function: t.num()?,
+            version: t.opt_num()?,
+            value: t.payload()?,
+        }
+        .into(),
+        "CallFunctionReply" => {
+            let serial = t.num()?;
+            let result = match t.word()? {
+                "Ok" => CallFunctionResult::Ok(t.payload()?),
+                "Err" => CallFunctionResult::Err(t.payload()?),
+                "Aborted" => CallFunctionResult::Aborted,
+                "InvalidService" => CallFunctionResult::InvalidService,
+                "InvalidFunction" => CallFunctionResult::InvalidFunction,
+                "InvalidArgs" => CallFunctionResult::InvalidArgs,
+                w => return Err(bad("result", w)),
+            };
+            CallFunctionReply { serial, result }.into()
+        }
+        "SubscribeEvent" => SubscribeEvent {
+            serial: t.opt_num()?,
+            service_cookie: ServiceCookie(t.uuid(ids)?),
+            event: t.num()?,
+        }
+        .into(),
+        "SubscribeEventReply" => {
+            let serial = t.num()?;
+            let result = match t.word()? {
+                "Ok" => SubscribeEventResult::Ok,
+                "Invalid" => SubscribeEventResult::InvalidService,
+                w => return Err(bad("result", w)),
+            };
+            SubscribeEventReply { serial, result }.into()
+        }
+        "UnsubscribeEvent" => UnsubscribeEvent { service_cookie: ServiceCookie(t.uuid(ids)?), event: t.num()? }.into(),
+        "EmitEvent" => EmitEvent { service_cookie: ServiceCookie(t.uuid(ids)?), event: t.num()?, value: t.payload()? }.into(),
+        "QueryServiceVersion" => QueryServiceVersion { serial: t.num()?, cookie: ServiceCookie(t.uuid(ids)?) }.into(),
+        "QueryServiceVersionReply" => {
+            let serial = t.num()?;
+            let result = match t.word()? {
+                "Ok" => QueryServiceVersionResult::Ok(t.num()?),
+                "Invalid" => QueryServiceVersionResult::InvalidService,
+                w => return Err(bad("result", w)),
+            };
+            QueryServiceVersionReply { serial, result }.into()
+        }
+        "CreateChannel" => CreateChannel { serial: t.num()?, end: t.endc()? }.into(),
+        "CreateChannelReply" => CreateChannelReply { serial: t.num()?, cookie: ChannelCookie(t.uuid(ids)?) }.into(),
+        "CloseChannelEnd" => CloseChannelEnd { serial: t.num()?, cookie: ChannelCookie(t.uuid(ids)?), end: t.end()? }.into(),
+        "CloseChannelEndReply" => {
+            let serial = t.num()?;
+            let result = match t.word()? {
+                "Ok" => CloseChannelEndResult::Ok,
+                "Invalid" => CloseChannelEndResult::InvalidChannel,
+                "Foreign" => CloseChannelEndResult::ForeignChannel,
+                w => return Err(bad("result", w)),
+            };
+            CloseChannelEndReply { serial, result }.into()
+        }
+        "ChannelEndClosed" => ChannelEndClosed { cookie: ChannelCookie(t.uuid(ids)?), end: t.end()? }.into(),
+        "ClaimChannelEnd" => ClaimChannelEnd { serial: t.num()?, cookie: ChannelCookie(t.uuid(ids)?), end: t.endc()? }.into(),
+        "ClaimChannelEndReply" => {
+            let serial = t.num()?;
+            let result = match t.word()? {
+                "SenderClaimed" => ClaimChannelEndResult::SenderClaimed(t.num()?),
+                "ReceiverClaimed" => ClaimChannelEndResult::ReceiverClaimed,
+                "Invalid" => ClaimChannelEndResult::InvalidChannel,
+                "Already" => ClaimChannelEndResult::AlreadyClaimed,
+                w => return Err(bad("result", w)),
+            };
+            ClaimChannelEndReply { serial, result }.into()
+        }
+        "ChannelEndClaimed" => ChannelEndClaimed { cookie: ChannelCookie(t.uuid(ids)?), end: t.endc()? }.into(),
+        "AddChannelCapacity" => AddChannelCapacity { cookie: ChannelCookie(t.uuid(ids)?), capacity: t.num()? }.into(),
+        "SendItem" => SendItem { cookie: ChannelCookie(t.uuid(ids)?), value: t.payload()? }.into(),
+        "ItemReceived" => ItemReceived { cookie: ChannelCookie(t.uuid(ids)?), value: t.payload()? }.into(),
+        "Sync" => Sync { serial: t.num()? }.into(),
+        "SyncReply" => SyncReply { serial: t.num()? }.into(),
+        "ServiceDestroyed" => ServiceDestroyed { service_cookie: ServiceCookie(t.uuid(ids)?) }.into(),
+        "CreateBusListener" => CreateBusListener { serial: t.num()? }.into(),
+        "CreateBusListenerReply" => CreateBusListenerReply { serial: t.num()?, cookie: BusListenerCookie(t.uuid(ids)?) }.into(),
+        "DestroyBusListener" => DestroyBusListener { serial: t.num()?, cookie: BusListenerCookie(t.uuid(ids)?) }.into(),
+        "DestroyBusListenerReply" => {
+            let serial = t.num()?;
+            let result = match t.word()? {
+                "Ok" => DestroyBusListenerResult::Ok,
+                "Invalid" => DestroyBusListenerResult::InvalidBusListener,
+                w => return Err(bad("result", w)),
+            };
+            DestroyBusListenerReply { serial, result }.into()
+        }
+        "AddBusListenerFilter" => AddBusListenerFilter { cookie: BusListenerCookie(t.uuid(ids)?), filter: t.filter(ids)? }.into(),
+        "RemoveBusListenerFilter" => RemoveBusListenerFilter { cookie: BusListenerCookie(t.uuid(ids)?), filter: t.filter(ids)? }.into(),
+        "ClearBusListenerFilters" => ClearBusListenerFilters { cookie: BusListenerCookie(t.uuid(ids)?) }.into(),
+        "StartBusListener" => {
+            let serial = t.num()?;
+            let cookie = BusListenerCookie(t.uuid(ids)?);
+            let scope = match t.word()? {
+                "Current" => BusListenerScope::Current,
+                "New" => BusListenerScope::New,
+                "All" => BusListenerScope::All,
+                w => return Err(bad("scope", w)),
+            };
+            StartBusListener { serial, cookie, scope }.into()
+        }
+        "StartBusListenerReply" => {
+            let serial = t.num()?;
+            let result = match t.word()? {
+                "Ok" => StartBusListenerResult::Ok,
+                "Invalid" => StartBusListenerResult::InvalidBusListener,
+                "Already" => StartBusListenerResult::AlreadyStarted,
+                w => return Err(bad("result", w)),
+            };
+            StartBusListenerReply { serial, result }.into()
+        }
+        "StopBusListener" => StopBusListener { serial: t.num()?, cookie: BusListenerCookie(t.uuid(ids)?) }.into(),
+        "StopBusListenerReply" => {
+            let serial = t.num()?;
+            let result = match t.word()? {
+                "Ok" => StopBusListenerResult::Ok,
+                "Invalid" => StopBusListenerResult::InvalidBusListener,
+                "NotStarted" => StopBusListenerResult::NotStarted,
+                w => return Err(bad("result", w)),
+            };
+            StopBusListenerReply { serial, result }.into()
+        }
+        "EmitBusEvent" => {
+            let cookie = t.opt_uuid(ids)?.map(BusListenerCookie);
+            let event = match t.word()? {
+                "OC" => BusEvent::ObjectCreated(t.object_id(ids)?),
+                "OD" => BusEvent::ObjectDestroyed(t.object_id(ids)?),
+                "SC" => BusEvent::ServiceCreated(t.service_id(ids)?),
+                "SD" => BusEvent::ServiceDestroyed(t.service_id(ids)?),
+                w => return Err(bad("bus event", w)),
+            };
+            EmitBusEvent { cookie, event }.into()
+        }
+        "BusListenerCurrentFinished" => BusListenerCurrentFinished { cookie: BusListenerCookie(t.uuid(ids)?) }.into(),
+        "AbortFunctionCall" => AbortFunctionCall { serial: t.num()? }.into(),
+        "RegisterIntrospection" => RegisterIntrospection { value: payload_of(0) }.into(),
+        "QueryIntrospection" => QueryIntrospection { serial: t.num()?, type_id: TypeId(Uuid::from_u128(1)) }.into(),
+        "QueryIntrospectionReply" => QueryIntrospectionReply { serial: t.num()?, result: QueryIntrospectionResult::Unavailable }.into(),
+        "QueryServiceInfo" => QueryServiceInfo { serial: t.num()?, cookie: ServiceCookie(t.uuid(ids)?) }.into(),
+        "QueryServiceInfoReply" => {
+            let serial = t.num()?;
+            let mut look = Toks { it: t.it.clone(), text };
+            let result = if look.word()? == "Invalid" {
+                t.word()?;
+                QueryServiceInfoResult::InvalidService
+            } else {
+                QueryServiceInfoResult::Ok(t.info(ids)?)
+            };
+            QueryServiceInfoReply { serial, result }.into()
+        }
+        "SubscribeService" => SubscribeService { serial: t.num()?, service_cookie: ServiceCookie(t.uuid(ids)?) }.into(),
+        "SubscribeServiceReply" => {
+            let serial = t.num()?;
+            let result = match t.word()? {
+                "Ok" => SubscribeServiceResult::Ok,
+                "Invalid" => SubscribeServiceResult::InvalidService,
+                w => return Err(bad("result", w)),
+            };
+            SubscribeServiceReply { serial, result }.into()
+        }
+        "UnsubscribeService" => UnsubscribeService { service_cookie: ServiceCookie(t.uuid(ids)?) }.into(),
+        "SubscribeAllEvents" => SubscribeAllEvents { serial: t.opt_num()?, service_cookie: ServiceCookie(t.uuid(ids)?) }.into(),
+        "SubscribeAllEventsReply" => {
+            let serial = t.num()?;
+            let result = match t.word()? {
+                "Ok" => SubscribeAllEventsResult::Ok,
+                "Invalid" => SubscribeAllEventsResult::InvalidService,
+                "NotSupported" => SubscribeAllEventsResult::NotSupported,
+                w => return Err(bad("result", w)),
+            };
+            SubscribeAllEventsReply { serial, result }.into()
+        }
+        "UnsubscribeAllEvents" => UnsubscribeAllEvents { serial: t.opt_num()?, service_cookie: ServiceCookie(t.uuid(ids)?) }.into(),
+        "UnsubscribeAllEventsReply" => {
+            let serial = t.num()?;
+            let result = match t.word()? {
+                "Ok" => UnsubscribeAllEventsResult::Ok,
+                "Invalid" => UnsubscribeAllEventsResult::InvalidService,
+                "NotSupported" => UnsubscribeAllEventsResult::NotSupported,
+                w => return Err(bad("result", w)),
+            };
+            UnsubscribeAllEventsReply { serial, result }.into()
+        }
+        "Shutdown" => Shutdown.into(),
+        k => return Err(format!("message kind {:?} cannot be parsed back ({:?})", k, text)),
+    };
+    t.finish()?;
+    Ok(m)
+}
+
+#[cfg(test)]
+mod tests {
+    use super::*;
+
+    fn u(n: u128) -> Uuid {
+        Uuid::from_u128(n)
+    }
+
+    /// one message (or several, for the variants) of every kind the broker generator injects
+    fn samples() -> Vec<Message> {
+        let val = |n: u8| SerializedValue::serialize(n).unwrap();
+        let oc = ObjectCookie(u(100));
+        let sc = ServiceCookie(u(200));
+        let cc = ChannelCookie(u(300));
+        let lc = BusListenerCookie(u(400));
+        let ou = ObjectUuid(u(1));
+        let su = ServiceUuid(u(11));
+        let info = |i: ServiceInfo| SerializedValue::serialize(i).unwrap();
+        let mut v: Vec<Message> = vec![
+            CreateObject { serial: 2, uuid: ou }.into(),
+            DestroyObject { serial: 1, cookie: oc }.into(),
+            CreateService { serial: 0, object_cookie: oc, uuid: su, version: 2 }.into(),
+            CreateService2 { serial: 1, object_cookie: oc, uuid: su, value: info(ServiceInfo::new(1)) }.into(),
+            CreateService2 { serial: 1, object_cookie: oc, uuid: su, value: info(ServiceInfo::new(2).set_subscribe_all(true)) }.into(),
+            CreateService2 { serial: 1, object_cookie: oc, uuid: su, value: info(ServiceInfo::new(0).set_subscribe_all(false)) }.into(),
+            CreateService2 {
+                serial: 1,
+                object_cookie: oc,
+                uuid: su,
+                value: info(ServiceInfo::new(3).set_type_id(TypeId(u(77))).set_subscribe_all(true)),
+            }
+            .into(),
+            CreateService2 { serial: 2, object_cookie: oc, uuid: su, value: val(7) }.into(),
+            DestroyService { serial: 2, cookie: sc }.into(),
+            CallFunction { serial: 1, service_cookie: sc, function: 1, value: val(199) }.into(),
+            CallFunction2 { serial: 0, service_cookie: sc, function: 2, version: None, value: val(0) }.into(),
+            CallFunction2 { serial: 0, service_cookie: sc, function: 2, version: Some(1), value: val(5) }.into(),
+            CallFunction { serial: 1, service_cookie: sc, function: 1, value: SerializedValue::serialize("s").unwrap() }.into(),
+            CallFunctionReply { serial: 7, result: CallFunctionResult::Ok(val(3)) }.into(),
+            CallFunctionReply { serial: 7, result: CallFunctionResult::Err(val(4)) }.into(),
+            CallFunctionReply { serial: 7, result: CallFunctionResult::Aborted }.into(),
+            CallFunctionReply { serial: 7, result: CallFunctionResult::InvalidService }.into(),
+            CallFunctionReply { serial: 7, result: CallFunctionResult::InvalidFunction }.into(),
+            CallFunctionReply { serial: 7, result: CallFunctionResult::InvalidArgs }.into(),
+            AbortFunctionCall { serial: 2 }.into(),
+            SubscribeEvent { serial: Some(1), service_cookie: sc, event: 2 }.into(),
+            SubscribeEvent { serial: None, service_cookie: sc, event: 0 }.into(),
+            UnsubscribeEvent { service_cookie: sc, event: 1 }.into(),
+            EmitEvent { service_cookie: sc, event: 2, value: val(9) }.into(),
+            QueryServiceVersion { serial: 1, cookie: sc }.into(),
+            QueryServiceInfo { serial: 1, cookie: sc }.into(),
+            SubscribeService { serial: 2, service_cookie: sc }.into(),
+            UnsubscribeService { service_cookie: sc }.into(),
+            SubscribeAllEvents { serial: Some(0), service_cookie: sc }.into(),
+            SubscribeAllEvents { serial: None, service_cookie: sc }.into(),
+            UnsubscribeAllEvents { serial: Some(2), service_cookie: sc }.into(),
+            UnsubscribeAllEvents { serial: None, service_cookie: sc }.into(),
+            CreateChannel { serial: 2, end: ChannelEndWithCapacity::Sender }.into(),
+            CreateChannel { serial: 2, end: ChannelEndWithCapacity::Receiver(u32::MAX) }.into(),
+            ClaimChannelEnd { serial: 1, cookie: cc, end: ChannelEndWithCapacity::Sender }.into(),
+            ClaimChannelEnd { serial: 1, cookie: cc, end: ChannelEndWithCapacity::Receiver(0) }.into(),
+            CloseChannelEnd { serial: 0, cookie: cc, end: ChannelEnd::Sender }.into(),
+            CloseChannelEnd { serial: 0, cookie: cc, end: ChannelEnd::Receiver }.into(),
+            SendItem { cookie: cc, value: val(12) }.into(),
+            AddChannelCapacity { cookie: cc, capacity: u32::MAX - 1 }.into(),
+            CreateBusListener { serial: 3 }.into(),
+            AddBusListenerFilter { cookie: lc, filter: BusListenerFilter::any_object() }.into(),
+            AddBusListenerFilter { cookie: lc, filter: BusListenerFilter::object(ou) }.into(),
+            AddBusListenerFilter { cookie: lc, filter: BusListenerFilter::any_object_any_service() }.into(),
+            AddBusListenerFilter { cookie: lc, filter: BusListenerFilter::specific_object_any_service(ou) }.into(),
+            AddBusListenerFilter { cookie: lc, filter: BusListenerFilter::any_object_specific_service(su) }.into(),
+            AddBusListenerFilter { cookie: lc, filter: BusListenerFilter::specific_object_and_service(ou, su) }.into(),
+            RemoveBusListenerFilter { cookie: lc, filter: BusListenerFilter::specific_object_and_service(ou, su) }.into(),
+            ClearBusListenerFilters { cookie: lc }.into(),
+            DestroyBusListener { serial: 1, cookie: lc }.into(),
+            StartBusListener { serial: 0, cookie: lc, scope: BusListenerScope::Current }.into(),
+            StartBusListener { serial: 0, cookie: lc, scope: BusListenerScope::New }.into(),
+            StartBusListener { serial: 0, cookie: lc, scope: BusListenerScope::All }.into(),
+            StopBusListener { serial: 2, cookie: lc }.into(),
+            Sync { serial: 1 }.into(),
+            SyncReply { serial: 1 }.into(),
+            ServiceDestroyed { service_cookie: sc }.into(),
+            QueryIntrospection { serial: 2, type_id: TypeId(u(1)) }.into(),
+            RegisterIntrospection { value: val(17) }.into(),
+            ChannelEndClosed { cookie: cc, end: ChannelEnd::Receiver }.into(),
+            CreateObjectReply { serial: 0, result: CreateObjectResult::DuplicateObject }.into(),
+            ItemReceived { cookie: cc, value: val(1) }.into(),
+        ];
+        // kinds only the broker sends (parsed too, so that recorded outputs can be read back)
+        let oid = ObjectId::new(ou, oc);
+        let sid = ServiceId::new(oid, su, sc);
+        v.extend::<Vec<Message>>(vec![
+            CreateObjectReply { serial: 0, result: CreateObjectResult::Ok(oc) }.into(),
+            CreateServiceReply { serial: 0, result: CreateServiceResult::Ok(sc) }.into(),
+            CreateChannelReply { serial: 0, cookie: cc }.into(),
+            CreateBusListenerReply { serial: 0, cookie: lc }.into(),
+            ClaimChannelEndReply { serial: 1, result: ClaimChannelEndResult::SenderClaimed(4) }.into(),
+            ChannelEndClaimed { cookie: cc, end: ChannelEndWithCapacity::Receiver(6) }.into(),
+            EmitBusEvent { cookie: None, event: BusEvent::ObjectCreated(oid) }.into(),
+            EmitBusEvent { cookie: Some(lc), event: BusEvent::ServiceDestroyed(sid) }.into(),
+            BusListenerCurrentFinished { cookie: lc }.into(),
+            QueryServiceInfoReply { serial: 1, result: QueryServiceInfoResult::InvalidService }.into(),
+            QueryServiceInfoReply { serial: 1, result: QueryServiceInfoResult::Ok(info(ServiceInfo::new(1).set_subscribe_all(true))) }.into(),
+            QueryIntrospectionReply { serial: 1, result: QueryIntrospectionResult::Unavailable }.into(),
+            Shutdown.into(),
+        ]);
+        v
+    }
+
+    #[test]
+    fn parse_is_inverse_of_fmt() {
+        let msgs = samples();
+        let mut kinds = std::collections::BTreeSet::new();
+        for m in &msgs {
+            let t1 = fmt_msg(m, &mut Ids::default());
+            kinds.insert(t1.split(' ').next().unwrap().to_string());
+            // fresh Ids: every id in the text is unknown and gets a synthesized uuid bound to it
+            let mut ids2 = Ids::default();
+            let m2 = parse_msg(&t1, &mut ids2).unwrap_or_else(|e| panic!("{t1}: {e}"));
+            assert_eq!(fmt_msg(&m2, &mut ids2), t1, "same Ids");
+            assert_eq!(fmt_msg(&m2, &mut Ids::default()), t1, "fresh Ids");
+            assert_eq!(std::mem::discriminant(m), std::mem::discriminant(&m2), "{t1}");
+            // known ids resolve to the uuids they were assigned to: exact message equality
+            // (except where the text drops information)
+            let mut ids3 = Ids::default();
+            let t3 = fmt_msg(m, &mut ids3);
+            let m3 = parse_msg(&t3, &mut ids3).unwrap();
+            if !matches!(m, Message::RegisterIntrospection(_))
+                && !matches!(m, Message::CreateService2(c) if c.value.deserialize::<ServiceInfo>().is_err())
+                && !t3.ends_with(" 999")
+            {
+                assert_eq!(&m3, m, "{t3}");
+            }
+        }
+        // every kind of gen_msg_raw in bin/broker.rs
+        for k in [
+            "CreateObject", "DestroyObject", "CreateService", "CreateService2", "DestroyService", "CallFunction",
+            "CallFunction2", "CallFunctionReply", "AbortFunctionCall", "SubscribeEvent", "UnsubscribeEvent", "EmitEvent",
+            "QueryServiceVersion", "QueryServiceInfo", "SubscribeService", "UnsubscribeService", "SubscribeAllEvents",
+            "UnsubscribeAllEvents", "CreateChannel", "ClaimChannelEnd", "CloseChannelEnd", "SendItem", "AddChannelCapacity",
+            "CreateBusListener", "AddBusListenerFilter", "RemoveBusListenerFilter", "ClearBusListenerFilters",
+            "DestroyBusListener", "StartBusListener", "StopBusListener", "Sync", "SyncReply", "ServiceDestroyed",
+            "QueryIntrospection", "RegisterIntrospection", "ChannelEndClosed", "CreateObjectReply", "ItemReceived",
+        ] {
+            assert!(kinds.contains(k), "no sample of kind {k}");
+        }
+    }
+
+    #[test]
+    fn unknown_ids_are_bound_and_known_ids_resolve() {
+        let mut ids = Ids::default();
+        let a = ids.id(u(1));
+        assert_eq!(a, 1);
+        let m = parse_msg("CreateService 0 9 1 2", &mut ids).unwrap();
+        let Message::CreateService(cs) = m else { panic!() };
+        assert_eq!(cs.uuid.0, u(1));
+        assert_eq!(ids.id(cs.object_cookie.0), 9);
+        assert!(ids.next >= 9);
+        let fresh = u(0xabcdef);
+        ids.bind(fresh, 12);
+        assert_eq!(ids.id(fresh), 12);
+        assert_eq!(ids.uuid_of(12), Some(fresh));
+        assert_eq!(ids.id(u(0x77)), 13);
+        assert!(parse_msg("CreateService 0 9 1", &mut ids).is_err());
+        assert!(parse_msg("Sync 1 2", &mut ids).is_err());
+        assert!(parse_msg("Other", &mut ids).is_err());
     }
 }
